@@ -163,6 +163,11 @@ def fields_read(fn, blocks, variant, F=None, VISITS=VISITS, selections=True, ini
                 if src:
                     if c in VISITS:
                         visited |= src
+                    # a visit function handed over as an item: fields.iter().all(Ty::is_closed)
+                    for a in t["args"]:
+                        k = a.get("k") if isinstance(a, dict) else None
+                        if isinstance(k, dict) and "fn" in k and ((k["fn"].get("res") or k["fn"].get("def") or "") in VISITS):
+                            visited |= src
                     # closures passed along (for_each(|x| visit(x))) that make a visit call
                     if F is not None:
                         d = FL.Defs(fn)
@@ -179,8 +184,9 @@ def fields_read(fn, blocks, variant, F=None, VISITS=VISITS, selections=True, ini
     return visited
 
 
-def visitor_completeness(F, res, fn_name, adt_short, rule="S1", fn_path=None, visits=VISITS, skips=None, what="visits", floor=None, selections=True):
-    adt = "ide::def::module::" + adt_short
+def visitor_completeness(F, res, fn_name, adt_short, rule="S1", fn_path=None, visits=VISITS, skips=None, what="visits", floor=None, selections=True, adt_path=None, child_re=None):
+    adt = adt_path or ("ide::def::module::" + adt_short)
+    CHILD_ = child_re or CHILD
     fn = F.fn(fn_path or (SC + fn_name))
     REVIEWED_SKIPS_ = REVIEWED_SKIPS if skips is None else skips
     d = FL.Defs(fn)
@@ -195,7 +201,7 @@ def visitor_completeness(F, res, fn_name, adt_short, rule="S1", fn_path=None, vi
     a = F.adt(adt)
     nchild = 0
     for v in a["variants"]:
-        kids = [f["name"] for f in v["fields"] if CHILD.search(f["ty"])]
+        kids = [f["name"] for f in v["fields"] if CHILD_.search(f["ty"])]
         if not kids:
             continue
         nchild += 1
